@@ -5,6 +5,7 @@ import (
 	"encoding/json"
 	"errors"
 	"fmt"
+	"os"
 	"reflect"
 	"strings"
 	"unicode/utf8"
@@ -84,8 +85,10 @@ func jsonVia[T any](v any) (any, error) {
 	return out, nil
 }
 
+var noTrunc = os.Getenv("WIRE_DUMP") != ""
+
 func trunc(s string, n int) string {
-	if len(s) > n {
+	if len(s) > n && !noTrunc {
 		return s[:n] + "…"
 	}
 	return s
@@ -544,6 +547,14 @@ func initCodecs() {
 		return m, 0, err
 	}
 	c.enc = func(v any) ([]byte, error) { return json.Marshal(v) }
+	// absent / null / empty lists are the same manifest
+	c.norm = func(v any) string {
+		j, err := json.Marshal(v)
+		if err != nil {
+			return "marshal error: " + err.Error()
+		}
+		return strings.ReplaceAll(string(j), "null", "[]")
+	}
 	c.jsonRT = func(v any) (any, error) { // the stack item form is the second encoding of a manifest
 		m := v.(*manifest.Manifest)
 		it, err := m.ToStackItem()
